@@ -7,7 +7,7 @@
 using namespace bpp;
 using namespace std;
 
-void ThreePointsNumericalDerivative::updateDerivatives(const ParameterList& parameters)
+void ThreePointsNumericalDerivative::updateDerivatives(const ParameterList& params)
 {
   if (computeD1_ && variables_.size() > 0)
   {
@@ -15,8 +15,11 @@ void ThreePointsNumericalDerivative::updateDerivatives(const ParameterList& para
       function1_->enableFirstOrderDerivatives(false);
     if (function2_)
       function2_->enableSecondOrderDerivatives(false);
-    function_->setParameters(parameters);
+    function_->setParameters(params);
     f2_ = function_->getValue();
+    // The derivatives of every selected variable depend on the whole point, not only on the
+    // parameters this update names: work from the function's full parameter list.
+    const ParameterList parameters(function_->getParameters());
     if ((abs(f2_) >= NumConstants::VERY_BIG()) || std::isnan(f2_))
     {
       for (size_t i = 0; i < variables_.size(); ++i)
@@ -219,7 +222,7 @@ void ThreePointsNumericalDerivative::updateDerivatives(const ParameterList& para
       function1_->enableFirstOrderDerivatives(computeD1_);
     if (function2_)
       function2_->enableSecondOrderDerivatives(computeD2_);
-    function_->setParameters(parameters);
+    function_->setParameters(params);
     // Just in case derivatives are not computed:
     f2_ = function_->getValue();
   }
